@@ -82,6 +82,14 @@ def gen_graph(rng, n_files=None):
             f["includes"].append(os.path.relpath(files[j]["rel"], frm or "."))
         if rng.random() < 0.15:
             f["includes"].append(rng.choice(["missing", "a/nothere", "../outside"]))
+        elif i > 0 and rng.random() < 0.2:
+            # a dangling name that DOES exist next to the root file (but not next to this file): still dangling
+            here, rootdir = os.path.dirname(f["rel"]), os.path.dirname(files[0]["rel"])
+            beside_root = [g["rel"] for g in files if os.path.dirname(g["rel"]) == rootdir and g is not f]
+            if here != rootdir and beside_root:
+                nm = os.path.basename(rng.choice(beside_root))
+                if os.path.normpath(os.path.join(here, nm)) not in {g["rel"] for g in files}:
+                    f["includes"].append(nm)
     if n >= 2 and not files[0]["includes"]:
         files[0]["includes"].append(os.path.relpath(files[1]["rel"], os.path.dirname(files[0]["rel"]) or "."))
     return files
